@@ -6,6 +6,7 @@ import (
 	"go/constant"
 	"go/token"
 	"go/types"
+	"golang.org/x/tools/go/ssa/ssautil"
 	"sort"
 	"strings"
 
@@ -1262,65 +1263,127 @@ func checkStandaloneParsesFlagsFirst(c *Ctx, rule string) {
 		c.missing(rule, "server_standalone.main")
 		return
 	}
+	// the functions of the command: main, what it calls, methods of its types, literals
+	var fns []*ssa.Function
+	for fn := range ssautil.AllFunctions(p.SSA) {
+		if o := outermost(fn); o != nil && o.Package() == pkg && fn.Blocks != nil {
+			fns = append(fns, fn)
+		}
+	}
+	sort.Slice(fns, func(i, j int) bool { return fns[i].Pos() < fns[j].Pos() })
+	// a flag variable is a local or a field of a struct (`flag.BoolVar(&f.readOnly, …)`): keyed by the value for a local,
+	// by type and field for a field, so that a read through a copy of the struct in another function is recognised
+	keyOf := func(addr ssa.Value) string {
+		if fa, ok := addr.(*ssa.FieldAddr); ok {
+			if t, n, _, ok := fieldOf(fa); ok {
+				return "field:" + typeName(t) + "." + n
+			}
+		}
+		return fmt.Sprintf("val:%p", addr)
+	}
 	var parses []ssa.Instruction
-	bound := map[ssa.Value]bool{}
-	flagName := map[ssa.Value]string{}
-	eachInstrDeep(mainFn, func(_ *ssa.Function, in ssa.Instruction) {
-		cc := callOf(in)
-		if cc == nil || cc.StaticCallee() == nil || cc.StaticCallee().Pkg == nil || cc.StaticCallee().Pkg.Pkg.Path() != "flag" {
-			return
-		}
-		name := cc.StaticCallee().Name()
-		if name == "Parse" {
-			parses = append(parses, in)
-		}
-		if strings.HasSuffix(name, "Var") && len(cc.Args) > 1 {
-			bound[cc.Args[0]] = true
-			flagName[cc.Args[0]], _ = constString(cc.Args[1])
-		}
-		// flag.Bool / flag.String / …: the pointer they return is the variable
-		switch name {
-		case "Bool", "String", "Int", "Int64", "Uint", "Uint64", "Float64", "Duration":
-			if v, ok := in.(ssa.Value); ok {
-				bound[v] = true
-				if len(cc.Args) > 0 {
-					flagName[v], _ = constString(cc.Args[0])
-				}
+	bound := map[string]bool{}
+	flagName := map[string]string{}
+	for _, fn := range fns {
+		eachInstr(fn, func(in ssa.Instruction) {
+			cc := callOf(in)
+			if cc == nil || cc.StaticCallee() == nil || cc.StaticCallee().Pkg == nil || cc.StaticCallee().Pkg.Pkg.Path() != "flag" {
+				return
 			}
-		}
-	})
-	c.check(len(parses) >= 1 && len(bound) >= 1, rule, "the stand-alone server has flags and parses them", p.Pos(mainFn.Pos()), fmt.Sprintf("%d variables bound, %d calls of flag.Parse", len(bound), len(parses)), "server_standalone.main no longer binds flags or never calls flag.Parse: -R has no effect")
-	gated := false
-	eachInstr(mainFn, func(in ssa.Instruction) {
-		u, ok := in.(*ssa.UnOp)
-		if !ok || u.Op != token.MUL || !bound[u.X] {
-			return
-		}
-		after := false
-		for _, ps := range parses {
-			if dominates(ps, in) {
-				after = true
+			name := cc.StaticCallee().Name()
+			if name == "Parse" {
+				parses = append(parses, in)
 			}
-		}
-		c.check(after, rule, "flag variable read after flag.Parse", p.Pos(in.Pos()), "flag.Parse() dominates the read", "a flag variable is read before flag.Parse has run: the default is what is read, whatever the command line says (sftp-server -R serves read-write)")
-		// the read-only option hangs on such a read
-		for _, r := range *u.Referrers() {
-			iff, ok := r.(*ssa.If)
-			if !ok {
-				continue
+			if strings.HasSuffix(name, "Var") && len(cc.Args) > 1 {
+				k := keyOf(cc.Args[0])
+				bound[k] = true
+				flagName[k], _ = constString(cc.Args[1])
 			}
-			t := iff.Block().Succs[0]
-			for _, b := range mainFn.Blocks {
-				if b != t && !t.Dominates(b) {
-					continue
-				}
-				for _, x := range b.Instrs {
-					if cc := callOf(x); cc != nil && cc.StaticCallee() != nil && fnName(cc.StaticCallee()) == "ReadOnly" && flagName[u.X] == "R" {
-						gated = true
+			// flag.Bool / flag.String / …: the pointer they return is the variable
+			switch name {
+			case "Bool", "String", "Int", "Int64", "Uint", "Uint64", "Float64", "Duration":
+				if v, ok := in.(ssa.Value); ok {
+					k := keyOf(v)
+					bound[k] = true
+					if len(cc.Args) > 0 {
+						flagName[k], _ = constString(cc.Args[0])
 					}
 				}
 			}
-		}
-	})
+		})
+	}
+	c.check(len(parses) >= 1 && len(bound) >= 1, rule, "the stand-alone server has flags and parses them", p.Pos(mainFn.Pos()), fmt.Sprintf("%d variables bound, %d calls of flag.Parse", len(bound), len(parses)), "server_standalone.main no longer binds flags or never calls flag.Parse: -R has no effect")
+	// where main is when a function runs: the call in main through which fn is reached (fn itself for main)
+	siteInMain := func(fn *ssa.Function) ssa.Instruction {
+		var site ssa.Instruction
+		eachInstr(mainFn, func(in ssa.Instruction) {
+			if cc := callOf(in); cc != nil && cc.StaticCallee() != nil && site == nil {
+				if cc.StaticCallee() == fn || p.cone(cc.StaticCallee())[fn] {
+					site = in
+				}
+			}
+		})
+		return site
+	}
+	gated := false
+	for _, fn := range fns {
+		fn := fn
+		eachInstr(fn, func(in ssa.Instruction) {
+			var k string
+			var val ssa.Value
+			switch x := in.(type) {
+			case *ssa.UnOp:
+				if x.Op != token.MUL {
+					return
+				}
+				k, val = keyOf(x.X), x
+			case *ssa.Field:
+				if st, ok := x.X.Type().Underlying().(*types.Struct); ok {
+					k, val = "field:"+typeName(x.X.Type())+"."+st.Field(x.Field).Name(), x
+				}
+			default:
+				return
+			}
+			if !bound[k] {
+				return
+			}
+			after := false
+			for _, ps := range parses {
+				switch {
+				case ps.Parent() == fn:
+					after = after || dominates(ps, in)
+				default:
+					// the read and the parse are in different functions: ordered by where main is at either
+					a, b := ssa.Instruction(ps), ssa.Instruction(in)
+					if ps.Parent() != mainFn {
+						a = siteInMain(ps.Parent())
+					}
+					if fn != mainFn {
+						b = siteInMain(outermost(fn))
+					}
+					after = after || a == nil || b == nil || (a != b && dominates(a, b))
+				}
+			}
+			c.check(after, rule, "flag variable read after flag.Parse", p.Pos(in.Pos()), "flag.Parse() dominates the read", "a flag variable is read before flag.Parse has run: the default is what is read, whatever the command line says (sftp-server -R serves read-write)")
+			// the read-only option hangs on such a read
+			for _, r := range *val.Referrers() {
+				iff, ok := r.(*ssa.If)
+				if !ok {
+					continue
+				}
+				t := iff.Block().Succs[0]
+				for _, b := range fn.Blocks {
+					if b != t && !t.Dominates(b) {
+						continue
+					}
+					for _, x := range b.Instrs {
+						if cc := callOf(x); cc != nil && cc.StaticCallee() != nil && fnName(cc.StaticCallee()) == "ReadOnly" && flagName[k] == "R" {
+							gated = true
+						}
+					}
+				}
+			}
+		})
+	}
 	c.check(gated, rule, "-R adds the ReadOnly option", p.Pos(mainFn.Pos()), "sftp.ReadOnly() under the test of the variable bound to -R", "the ReadOnly option does not hang on the variable that -R sets (sftp-server's flag for a read-only server): -R serves read-write, or another flag makes the server read-only")
 }
